@@ -60,6 +60,7 @@ type replayFile struct {
 }
 
 type nativeResult struct {
+	Obs    []string // natively observed values (vsym.Observe), in order
 	Race   bool   // the Go race detector fired during the native run
 	Status string // ok | failed | panic | aborted | error
 	Labels []string
@@ -161,8 +162,16 @@ func TestVReplay(t *testing.T) {
 		res[i].Status = "error"
 	}
 	re := regexp.MustCompile(`^VSYM-RESULT (\d+) (\S+) (ok|failed|panic|aborted)(?:: (.*))?$`)
+	reObs := regexp.MustCompile(`^VSYM-OBS (\d+) (.*)$`)
 	seen := 0
 	for _, line := range strings.Split(out.String(), "\n") {
+		if mo := reObs.FindStringSubmatch(strings.TrimRight(line, "\r")); mo != nil {
+			idx, _ := strconv.Atoi(mo[1])
+			if idx >= 0 && idx < len(res) {
+				res[idx].Obs = append(res[idx].Obs, mo[2])
+			}
+			continue
+		}
 		m := re.FindStringSubmatch(strings.TrimSpace(line))
 		if m == nil {
 			continue
@@ -278,7 +287,7 @@ func cmdCheck(args []string) {
 	exit := 0
 	inconclusive := []string{}
 	for _, h := range spec.Harnesses {
-		if *only != "" && !strings.HasSuffix(h.Name, *only) {
+		if *only != "" && !strings.HasSuffix(h.Name, *only) && h.Tier != *only && h.Name+"@"+h.Tier != *only {
 			continue
 		}
 		ts := h.Quick
@@ -330,6 +339,7 @@ func cmdCheck(args []string) {
 	nViol := 0
 	mismatches := 0
 	validated := 0
+	observationsCompared := 0
 	for _, hr := range results {
 		ro := hr.out
 		if len(ro.Violations) == 0 {
@@ -430,7 +440,30 @@ func cmdCheck(args []string) {
 				// that path; its model must therefore run clean natively unless
 				// a recorded violation/known finding covers it.
 				if nr.Status == "ok" {
-					validated++
+					// compare the engine's predicted observations with the native ones
+					pred := ro.Samples[idxs[k]].Observed
+					bad := ""
+					if len(pred) != len(nr.Obs) && !hr.spec.Threads {
+						bad = fmt.Sprintf("engine predicted %d observations, native run made %d", len(pred), len(nr.Obs))
+					} else if !hr.spec.Threads {
+						for oi := range pred {
+							if strings.HasSuffix(pred[oi], "=?") || strings.Contains(pred[oi], "?") {
+								continue
+							}
+							if pred[oi] != nr.Obs[oi] {
+								bad = fmt.Sprintf("observation %d: engine %s, native %s", oi, pred[oi], nr.Obs[oi])
+								break
+							}
+						}
+					}
+					if bad != "" {
+						mismatches++
+						fmt.Printf("ENCODER-MISMATCH property=%s harness=%s sample=%d: %s\n", id, hr.spec.Name, idxs[k], bad)
+						inconclusive = append(inconclusive, "encoder-mismatch-observation:"+hr.spec.Name)
+					} else {
+						validated++
+						observationsCompared += len(pred)
+					}
 				} else if nr.Status == "failed" || nr.Status == "panic" {
 					covered := false
 					for _, l := range nr.Labels {
@@ -554,6 +587,7 @@ func cmdCheck(args []string) {
 	cov["transitions"] = trans + 1
 	cov["traces_validated_against_impl"] = validated
 	cov["encoder_mismatches"] = mismatches
+	cov["observations_compared_with_native"] = observationsCompared
 	if len(samples) == 0 {
 		samples = append(samples, "no finished path")
 	}
